@@ -10,8 +10,12 @@ rationals; float32 rounding is not modelled.
 
 namespace JSL
 
-/-- Python's `sorted(xs, key=lambda x: x.id)` on ids `"<p>-<n>"`: lexicographic order of the
-    decimal renderings (the prefix is shared) -/
+/-- Python's `sorted(xs, key=lambda x: get_id_int(x.id))`: stable sort by the numeric id -/
+def sortById {α} (id : α → Nat) (l : List α) : List α :=
+  l.mergeSort fun a b => decide (id a ≤ id b)
+
+/-- the order the factory used before the repair (`key=lambda x: x.id`): lexicographic order of
+    the decimal renderings of the numbers (the prefix is shared); kept for the regression theorem -/
 def idStrLe (a b : Nat) : Bool := toString a ≤ toString b
 
 def sortByIdStr {α} (id : α → Nat) (l : List α) : List α :=
@@ -32,7 +36,7 @@ def listSet? {α} (l : List α) (i : Nat) (a : α) : Except Err (List α) :=
 
 /-- `SimpleJsspObservationFactory.make` -/
 def simpleObs (numMachines : Nat) (tmax : Int) (s : State) : Except Err SimpleObs := do
-  let jobs := sortByIdStr (·.id) s.jobs
+  let jobs := sortById (·.id) s.jobs
   let jobRunning := jobs.map (·.running)
   let avail ← jobs.mapM fun j => do
     let hasIdle := j.ops.any (·.st == .idle)
@@ -45,7 +49,7 @@ def simpleObs (numMachines : Nat) (tmax : Int) (s : State) : Except Err SimpleOb
       (List.replicate numMachines false)
   let prog ← jobs.foldlM (fun acc j => listSet? acc j.id (j.ops.filter (·.st == .done)).length)
       (List.replicate jobs.length 0)
-  let machines := sortByIdStr (·.id) s.machines
+  let machines := sortById (·.id) s.machines
   let mrun := machines.map (·.st == .working)
   let mprog := machines.map fun m =>
     ((jobs.flatMap (·.ops)).filter fun o => o.machine == m.id && o.st == .done).length
